@@ -452,10 +452,12 @@ namespace
   void run_noop(uint64_t idx, Ctx &ctx)
   {
     static const int c_cmp = Ctx::counter_id("noop_probes_compared");
-    const bool fault = idx % 2; const int kind = static_cast<int>(idx / 2) % 2; const unsigned k = static_cast<unsigned>(idx / 4) % 3;
+    // kind 0: composition, 1: temperature, 2: composition as in kind 0 next to a temperature model that world A inherits from the feature while world B writes it out in every section entry
+    const bool fault = idx % 2; const int kind = static_cast<int>(idx / 2) % 3; const unsigned k = static_cast<unsigned>(idx / 6) % 3;
     const std::string seg0 = "{\"length\":3e5,\"thickness\":[1e5],\"angle\":[90]";
-    const std::string real = kind == 0 ? ",\"composition models\":[{\"model\":\"uniform\",\"compositions\":[0],\"fractions\":[0.8]}]}" : ",\"temperature models\":[{\"model\":\"uniform\",\"temperature\":900}]}";
-    const std::string noop = kind == 0 ? ",\"composition models\":[{\"model\":\"uniform\",\"compositions\":[0],\"fractions\":[0],\"operation\":\"add\"}]}" : ",\"temperature models\":[{\"model\":\"uniform\",\"temperature\":0,\"operation\":\"add\"}]}";
+    const std::string tm900 = "\"temperature models\":[{\"model\":\"uniform\",\"temperature\":900}]";
+    const std::string real = kind != 1 ? ",\"composition models\":[{\"model\":\"uniform\",\"compositions\":[0],\"fractions\":[0.8]}]" : "," + tm900;
+    const std::string noop = kind != 1 ? ",\"composition models\":[{\"model\":\"uniform\",\"compositions\":[0],\"fractions\":[0],\"operation\":\"add\"}]" : ",\"temperature models\":[{\"model\":\"uniform\",\"temperature\":0,\"operation\":\"add\"}]";
     auto feature = [&](bool with_noops)
     {
       std::string sec = "[";
@@ -463,11 +465,12 @@ namespace
       for (unsigned c = 0; c < 3; ++c)
         {
           if (c != k && !with_noops) continue;
-          sec += std::string(first ? "" : ",") + "{\"coordinate\":" + std::to_string(c) + ",\"segments\":[" + seg0 + (c == k ? real : noop) + "]}";
+          sec += std::string(first ? "" : ",") + "{\"coordinate\":" + std::to_string(c) + ",\"segments\":[" + seg0 + (c == k ? real : noop) + (kind == 2 && with_noops ? "," + tm900 : std::string()) + "}]}";
           first = false;
         }
       sec += "]";
-      return std::string("{\"model\":\"") + (fault ? "fault" : "subducting plate") + "\",\"name\":\"F\",\"coordinates\":[[0,-3e5],[2e4,0],[0,3e5]],\"dip point\":[5e6,0],\"segments\":[" + seg0 + "}],\"sections\":" + sec + "}";
+      return std::string("{\"model\":\"") + (fault ? "fault" : "subducting plate") + "\",\"name\":\"F\",\"coordinates\":[[0,-3e5],[2e4,0],[0,3e5]],\"dip point\":[5e6,0],\"segments\":[" + seg0 + "}],"
+             + (kind == 2 && !with_noops ? tm900 + "," : std::string()) + "\"sections\":" + sec + "}";
     };
     const std::string under = "{\"model\":\"mantle layer\",\"name\":\"U\",\"coordinates\":[[-9e5,-9e5],[9e5,-9e5],[9e5,9e5],[-9e5,9e5]],\"composition models\":[{\"model\":\"uniform\",\"compositions\":[0],\"fractions\":[0.25]}]}";
     const std::string ta = world(coord(false), {under, feature(false)}), tb = world(coord(false), {under, feature(true)});
@@ -482,11 +485,11 @@ namespace
             const std::vector<double> va = a->properties(p, d, req), vb = b->properties(p, d, req);
             ctx.eval(); ctx.count(c_cmp);
             if (va[2] != 0) ++inside;
-            if (kind == 0 ? std::fabs(va[1] - 0.25) > 1e-3 : false) ++differing_from_background;
+            if (kind != 1 ? std::fabs(va[1] - 0.25) > 1e-3 : false) ++differing_from_background;
             const bool same = va[2] == vb[2] && std::fabs(va[0] - vb[0]) <= 1e-9 * std::max(1.0, std::fabs(va[0])) && std::fabs(va[1] - vb[1]) <= 1e-12;
             if (!same)
               {
-                ctx.violation(std::string("C10/noop/") + (fault ? "fault" : "subducting plate") + (kind == 0 ? "/composition" : "/temperature") + "/sections-without-a-model-differ-from-sections-with-a-model-that-adds-zero",
+                ctx.violation(std::string("C10/noop/") + (fault ? "fault" : "subducting plate") + (kind == 0 ? "/composition" : kind == 1 ? "/temperature" : "/composition-with-an-inherited-temperature-model") + "/sections-without-a-model-differ-from-sections-with-a-model-that-adds-zero",
                               JObj().integer("coordinate_carrying_the_model", k).raw("point", jarr(p)).num("depth", d).raw("only_one_section_has_a_model", jarr(va)).raw("other_sections_add_zero", jarr(vb)).str("world_a", ta).str("world_b", tb).done());
                 return;
               }
@@ -540,6 +543,45 @@ namespace
           }
     if (inside > 50) ctx.nontrivial();
   }
+
+  // ---------- suite emptylists: a section that declares empty model lists has no models of that kind, wherever the empty lists are written ----------
+  // The feature carries temperature and composition models; the section entry of coordinate k switches them off with empty lists, written
+  // at the level of the section entry (world A) or inside its segment (world B).
+  void run_emptylists(uint64_t idx, Ctx &ctx)
+  {
+    static const int c_cmp = Ctx::counter_id("noop_probes_compared");
+    const bool fault = idx % 2; const unsigned k = static_cast<unsigned>(idx / 2) % 3;
+    const std::string geo = "\"length\":3e5,\"thickness\":[1e5],\"angle\":[90]";
+    const std::string empty = "\"temperature models\":[],\"composition models\":[]";
+    auto feature = [&](bool in_segment)
+    {
+      const std::string sec = in_segment ? "[{\"coordinate\":" + std::to_string(k) + ",\"segments\":[{" + geo + "," + empty + "}]}]"
+                                          : "[{\"coordinate\":" + std::to_string(k) + "," + empty + ",\"segments\":[{" + geo + "}]}]";
+      return std::string("{\"model\":\"") + (fault ? "fault" : "subducting plate") + "\",\"name\":\"F\",\"coordinates\":[[0,-3e5],[2e4,0],[0,3e5]],\"dip point\":[5e6,0],\"segments\":[{" + geo + "}],"
+             "\"temperature models\":[{\"model\":\"uniform\",\"temperature\":700}],\"composition models\":[{\"model\":\"uniform\",\"compositions\":[1]}],\"sections\":" + sec + "}";
+    };
+    const std::string ta = world(coord(false), {feature(false)}), tb = world(coord(false), {feature(true)});
+    std::unique_ptr<World> a, b;
+    try { a = make_world(ta, 1, "ea"); b = make_world(tb, 1, "eb"); }
+    catch (const std::exception &e) { ctx.violation("harness/world-rejected", JObj().str("what", std::string(e.what()).substr(0, 300)).str("world", ta).done()); return; }
+    const Request req = {{{1,0,0}},{{2,1,0}},{{4,0,0}}};
+    size_t inside = 0, switched_off = 0;
+    for (double x : {-4e4, -1e4, 1.5e4, 3e4}) for (double y = -2.9e5; y <= 2.9e5; y += 1.25e4) for (double d : {5e4, 1.5e5, 2.5e5})
+          {
+            const P3 p = query_point(false, x, y, d);
+            const std::vector<double> va = a->properties(p, d, req), vb = b->properties(p, d, req);
+            ctx.eval(); ctx.count(c_cmp);
+            if (vb[2] == 0) { ++inside; if (vb[1] < 0.99) ++switched_off; }
+            const bool same = va[2] == vb[2] && std::fabs(va[0] - vb[0]) <= 1e-9 * std::max(1.0, std::fabs(va[0])) && std::fabs(va[1] - vb[1]) <= 1e-12;
+            if (!same)
+              {
+                ctx.violation(std::string("C10/emptylists/") + (fault ? "fault" : "subducting plate") + "/empty-lists-in-the-section-entry-differ-from-empty-lists-in-its-segment",
+                              JObj().integer("coordinate_with_the_empty_lists", k).raw("point", jarr(p)).num("depth", d).raw("empty_lists_in_the_section_entry", jarr(va)).raw("empty_lists_in_the_segment", jarr(vb)).str("world_a", ta).str("world_b", tb).done());
+                return;
+              }
+          }
+    if (inside > 50 && switched_off > 10) ctx.nontrivial();
+  }
 }
 
 int main(int argc, char **argv)
@@ -567,11 +609,13 @@ int main(int argc, char **argv)
     uint64_t subsets = 0, ks = 0;
     for (unsigned n : ns) subsets += 1ull << n;
     for (unsigned n : ns2) ks += n;
-    std::vector<Suite> s(5);
+    std::vector<Suite> s(6);
+    s[5].name = "emptylists"; s[5].n = 6; s[5].run = run_emptylists;
+    s[5].bound = "{slab, fault} x the coordinate of three whose section entry switches the feature-level temperature and composition models off with empty lists: written in the section entry vs written in its segment, 564 probes each";
     s[4].name = "reverse"; s[4].n = 28; s[4].run = run_reverse;
     s[4].bound = "{slab, fault} x 7 patterns of {100 km, 0} thickness at the three coordinates (the body tapers out along strike) x 2 bent trenches: the world with the coordinates listed from the other end and the section entries renumbered, 3480 probes each";
-    s[3].name = "noop"; s[3].n = 12; s[3].run = run_noop;
-    s[3].bound = "{slab, fault} x {composition, temperature} x the one coordinate of three whose section entry carries a model: compared with the world whose other section entries carry a model that adds zero, 564 probes each";
+    s[3].name = "noop"; s[3].n = 18; s[3].run = run_noop;
+    s[3].bound = "{slab, fault} x {composition, temperature, composition next to a temperature model inherited from the feature (written out in every section entry of the twin)} x the one coordinate of three whose section entry carries a model: compared with the world whose other section entries carry a model that adds zero, 564 probes each";
     s[2].name = "lengthmodel"; s[2].n = 6; s[2].run = run_length_model;
     s[2].bound = "slab with 3 coordinates, section k in {0,1,2} 1000 km long, the others 600 km, feature-level mass conserving temperature (adiabatic heating on / off): probes within 2 km of every coordinate x 25 down-dip positions x 19 depths each compared with the uniform slab that has the interpolated length of that location";
     s[0].name = "layouts";
